@@ -1101,3 +1101,73 @@ def opc6_exit_templates(ctx: Ctx) -> None:
                                construct=f"{v}: {b4} before LOAD_CONST run")
     if n_checked < 12:
         raise AnalysisError(f"OPC-6: only {n_checked} template agreements checked (>= 12 confirmed by hand)")
+
+
+# --------------------------------------------------------------------- OPC-8 jump arithmetic of the 3.9/3.10 block-stack walk
+def opc8_jump_arithmetic(ctx: Ctx) -> None:
+    """OPC-8 in the control-flow walk of currently_exiting_context (CPython < 3.11): a relative jump / SETUP_* target and the
+    fall-through successor are computed from the position of the decoded instruction itself (after its EXTENDED_ARG
+    prefixes), absolute jumps from the argument alone, and both are scaled by the same unit factor"""
+    mod = ctx.P.mod("_lowlevel")
+    fn = mod.fn("currently_exiting_context")
+    loops = [l for l in ast.walk(fn) if isinstance(l, ast.While) and norm(l.test) == "todo"]
+    if len(loops) != 1:
+        ctx.R.undecided("OPC-8", "the `while todo` walk was not found")
+        return
+    loop = loops[0]
+    # position variable of the decoded instruction: the one advanced by the EXTENDED_ARG loop
+    ext = [w for w in ast.walk(loop) if isinstance(w, ast.While) and "EXTENDED_ARG" in norm(w.test)]
+    if len(ext) != 1:
+        ctx.R.undecided("OPC-8", "EXTENDED_ARG prefix loop not found in the walk")
+        return
+    adv = [s for s in ext[0].body if isinstance(s, ast.AugAssign) and isinstance(s.op, ast.Add) and isinstance(s.value, ast.Constant) and s.value.value == 2]
+    if len(adv) != 1:
+        ctx.R.undecided("OPC-8", "the prefix loop does not advance a position by 2")
+        return
+    P = norm(adv[0].target)
+    # arg accumulates (arg << 8) | code[P + 1]
+    acc = [s for s in ext[0].body if isinstance(s, ast.Assign) and norm(s.targets[0]) == "arg"]
+    if len(acc) == 1 and norm(acc[0].value) in (f"arg << 8 | code[{P} + 1]", f"(arg << 8) | code[{P} + 1]"):
+        ctx.R.ok("OPC-8", f"EXTENDED_ARG prefixes accumulate arg = (arg << 8) | code[{P} + 1]")
+    else:
+        ctx.R.fail("OPC-8", mod, ext[0], f"each EXTENDED_ARG prefix must extend the argument as (arg << 8) | code[{P} + 1]", construct="EXTENDED_ARG accumulation")
+    jm = [s for s in ast.walk(fn) if isinstance(s, ast.Assign) and norm(s.targets[0]) == "jmul"]
+    if len(jm) == 1 and isinstance(jm[0].value, ast.IfExp):
+        for v in ("3.9", "3.10"):
+            c = ctx.V.cond(jm[0].value.test, v)
+            val = ast.literal_eval(jm[0].value.body if c else jm[0].value.orelse) if c is not None else None
+            want = 2 if v == "3.10" else 1
+            if val == want:
+                ctx.R.ok("OPC-8", f"{v}: jump arguments count units of {want} byte(s)")
+            else:
+                ctx.R.fail("OPC-8", mod, jm[0], f"CPython {v}: jump arguments are in units of {want} byte(s) (instructions from 3.10 on), the walk scales them by {val}", construct=f"{v}: jmul == {val}")
+    else:
+        ctx.R.undecided("OPC-8", "jump unit factor `jmul` not found")
+    # every target expression appended to the work list / pushed on the simulated block stack
+    n = 0
+    for e in ast.walk(loop):
+        if isinstance(e, ast.BinOp) and isinstance(e.op, ast.Add):
+            t = norm(e)
+            if t.endswith("+ arg * jmul") and "+ 2" in t:
+                n += 1
+                base = norm(e.left.left) if isinstance(e.left, ast.BinOp) else None
+                if t == f"{P} + 2 + arg * jmul":
+                    ctx.R.ok("OPC-8", f"relative target {t}")
+                else:
+                    ctx.R.fail("OPC-8", mod, e, f"a relative jump / SETUP_* target is relative to the instruction after the decoded opcode at `{P}`; the walk computes `{t}` "
+                               f"(when the jump carries an EXTENDED_ARG prefix the two differ by the prefix length: the handler offset and the successor are wrong)", construct=f"relative target {t}")
+    falls = [c for c in ast.walk(loop) if isinstance(c, ast.Call) and norm(c.func) == "todo.append" and isinstance(c.args[0], ast.Tuple)
+             and isinstance(c.args[0].elts[0], ast.BinOp) and isinstance(c.args[0].elts[0].op, ast.Add) and isinstance(c.args[0].elts[0].right, ast.Constant)
+             and "arg" not in norm(c.args[0].elts[0])]
+    for c in falls:
+        n += 1
+        if norm(c.args[0].elts[0]) == f"{P} + 2":
+            ctx.R.ok("OPC-8", f"fall-through successor {P} + 2")
+        else:
+            ctx.R.fail("OPC-8", mod, c, f"the fall-through successor is the instruction after the decoded opcode at `{P}`, the walk queues `{norm(c.args[0].elts[0])}`", construct=f"fall-through {norm(c.args[0].elts[0])}")
+    absj = [c for c in ast.walk(loop) if isinstance(c, ast.Call) and norm(c.func) == "todo.append" and isinstance(c.args[0], ast.Tuple) and norm(c.args[0].elts[0]) in ("arg * jmul", "jmul * arg")]
+    if absj:
+        n += 1
+        ctx.R.ok("OPC-8", "absolute target arg * jmul")
+    if n < 3:
+        ctx.R.undecided("OPC-8", f"only {n} jump-target expressions recognised in the walk")
